@@ -49,6 +49,7 @@ def mirror(df_p):
 @st.composite
 def strategy(draw, tier):
     case = draw(gen.st_analysis_case(tie_rich=draw(st.booleans()), bursty=draw(st.booleans())))
+    case['same_object'] = draw(st.integers(0, 2)) == 0
     return case
 
 
@@ -61,6 +62,18 @@ def check(case, rec):
         pipeline.trusted_burst_mask(case_t, x)
     df_t = pipeline.analyse(case_t, x)
     df_p = pipeline.analyse(case_p, -x)
+    if case.get('same_object'):
+        # both centrings asked of ONE array object, one right after the other (the usual exploratory workflow)
+        import warnings
+        from bycycle.features import compute_features
+        buf = np.array(x, copy=True)
+        with warnings.catch_warnings():
+            warnings.simplefilter('ignore')
+            guarded(compute_features, buf, case['fs'], tuple(case['f_range']), **gen.cf_kwargs(case_p))
+            again_t = guarded(compute_features, buf, case['fs'], tuple(case['f_range']), **gen.cf_kwargs(case_t))
+        ok, why = ref.frames_equal(again_t, df_t)
+        if not ok:
+            raise Violation('trough-after-peak-on-the-same-array', why)
     rec.label(*[l for l in gen.case_labels(case) if not l.startswith('center:')])
     if len(df_t) != len(df_p):
         raise Violation('row-count', 'trough-centred %d rows, mirrored peak-centred %d rows' % (len(df_t), len(df_p)))
